@@ -383,15 +383,38 @@ func vfGenC16(rt *rapid.T) vfC16Case {
 		ln.Body = string(body)
 		payload := "#" + ln.Type + ":" + ln.Body
 		ctrlCAt := -1
+		ctrlRaw := false
 		if cs.CtrlC && i == cs.CtrlCLn {
 			ctrlCAt = rapid.IntRange(0, len(payload)).Draw(rt, "ctrlcat")
+			// or anywhere in the rendered line, noise included: inside an escape sequence, inside a status string, after a CR
+			ctrlRaw = rapid.Bool().Draw(rt, "ctrlc_anywhere")
+			if ctrlRaw {
+				ctrlCAt = -1
+			}
 		}
+		lineStart := b.out.Len()
 		if cs.Mode == "win" {
 			if b.winLine(payload, allowF12, ctrlCAt) {
 				cs.F12 = true
 			}
 		} else {
 			b.tmuxLine(payload, ctrlCAt)
+		}
+		if ctrlRaw {
+			seg := append([]byte(nil), b.out.Bytes()[lineStart:]...)
+			end := len(seg) - 1 // tmux: the final LF
+			if cs.Mode == "win" {
+				end = bytes.LastIndexByte(seg, '!')
+			}
+			if end < 0 {
+				end = 0
+			}
+			at := rapid.IntRange(0, end).Draw(rt, "ctrlc_offset")
+			b.out.Truncate(lineStart)
+			b.out.Write(seg[:at])
+			b.out.WriteByte(0x03)
+			b.out.Write(seg[at:])
+			b.kind("ctrl_c_anywhere_in_the_rendered_line")
 		}
 		cs.Lines = append(cs.Lines, ln)
 		if cs.CtrlC && i == cs.CtrlCLn {
